@@ -916,3 +916,10 @@ MUTANTS.append({"id": "C16-library-key-only-with-edges", "prop": "C16", "benign"
 M("C16-benign-library-key-emplace", "C16", "src/interrogate/interrogate_module.cxx",
   "        std::set<string> &deps = dependencies[library_name];\n\n        // Get the dependencies for this library.", "        dependencies.emplace(library_name, std::set<string>());\n        std::set<string> &deps = dependencies.find(library_name)->second;\n\n        // Get the dependencies for this library.",
   benign=True)
+
+M("C10-override-flag-masked-one-side", "C10", "src/cppparser/cppFunctionType.cxx",
+  "  if (((_flags ^ other._flags) & ~(F_override | F_final)) != 0) {", "  if ((_flags & ~(F_override | F_final)) != other._flags) {",
+  expect="R10.4|match_virtual_override|flags-modulo-override-final")
+M("C10-benign-override-flag-or-form", "C10", "src/cppparser/cppFunctionType.cxx",
+  "  if (((_flags ^ other._flags) & ~(F_override | F_final)) != 0) {", "  if ((_flags | F_override | F_final) != (other._flags | F_override | F_final)) {",
+  benign=True)
